@@ -112,7 +112,7 @@ pub fn c01(cx: &Ctx) -> Report {
             }
         }
         // string subjects: every special character (whitespace, non-1:1 case mappings, titlecase, ...; thorough:
-        // additionally every Unicode scalar on every 64th subject) in 14 contexts, against REF
+        // additionally every Unicode scalar on every 64th subject) in 16 contexts, against REF
         if d.family() == Family::Str {
             let all_scalars = tier == Tier::Thorough && i % 64 == 0;
             let mut sweep = |c: char, r: &mut Report| {
@@ -773,11 +773,21 @@ pub fn obtainable(d: &Decl, dom: &[Val], cap: usize) -> Vec<Val> {
 // ------------------------------------------------------------------------------------------------
 // C11 – explicit-state BFS over (subject, stored value)
 
+/// characters a "smarter" trim might be tempted to treat specially although `char::is_whitespace` does not
+/// (byte order mark, zero-width and bidi format characters, soft hyphen, C0/C1 separators, Mongolian vowel separator)
+pub const TRIM_SUSPECTS: [char; 24] = [
+    '\u{FEFF}', '\u{200B}', '\u{200C}', '\u{200D}', '\u{2060}', '\u{180E}', '\u{00AD}', '\u{061C}', '\u{200E}', '\u{200F}', '\u{202A}', '\u{202C}', '\u{202E}', '\u{2066}', '\u{2069}', '\u{0000}', '\u{001C}',
+    '\u{001F}', '\u{007F}', '\u{0085}', '\u{FFFE}', '\u{FFFD}', '\u{E000}', '\u{10FFFF}',
+];
+
 pub fn special_chars() -> Vec<char> {
-    let mut v = vec![];
+    let mut v: Vec<char> = TRIM_SUSPECTS.to_vec();
     for c in '\0'..=char::MAX {
         let lo: Vec<char> = c.to_lowercase().collect();
         let up: Vec<char> = c.to_uppercase().collect();
+        if TRIM_SUSPECTS.contains(&c) {
+            continue;
+        }
         if c.is_whitespace() || lo.len() != 1 || up.len() != 1 || domain::SIGMA_THOROUGH.contains(&c) {
             v.push(c);
             continue;
@@ -806,7 +816,7 @@ pub fn special_chars_cached() -> &'static Vec<char> {
 pub fn unicode_contexts(c: char) -> Vec<String> {
     let mut out = vec![];
     let cs = c.to_string();
-    for (pre, post) in [("", ""), ("a", ""), ("", "a"), (" ", ""), ("", " "), ("Σ", ""), ("", "Σ"), ("A", "A"), ("\u{301}", ""), ("", "\u{301}"), ("aΣ", ""), ("\u{a0}", "\u{a0}"), ("İ", ""), ("", "ß")] {
+    for (pre, post) in [("", ""), ("a", ""), ("", "a"), (" ", ""), ("", " "), ("Σ", ""), ("", "Σ"), ("A", "A"), ("\u{301}", ""), ("", "\u{301}"), ("aΣ", ""), ("\u{a0}", "\u{a0}"), ("İ", ""), ("", "ß"), ("", " a"), ("a ", "")] {
         out.push(format!("{pre}{cs}{post}"));
     }
     out
@@ -846,7 +856,7 @@ pub fn c11(cx: &Ctx) -> Report {
             }
             r.evaluations += 1;
         }
-        // string subjects without `with`: every special / every Unicode scalar in 14 contexts
+        // string subjects without `with`: every special / every Unicode scalar in 16 contexts
         if d.family() == Family::Str && !d.sans.iter().any(|x| matches!(x, San::With(..))) && !d.sans.is_empty() {
             let every = if tier == Tier::Thorough && i % 4 != 0 { 16 } else { 1 };
             for (k, c) in specials.iter().enumerate() {
@@ -1003,7 +1013,7 @@ pub fn c11(cx: &Ctx) -> Report {
     });
     rep.rule = "explicit-state BFS: states = (declaration, stored value) obtained from the C01 domain (plus Unicode-context sweeps for string sanitizer lists); transitions = derived entry points applied to the state's own inner value / Display / serialisation; invariant: every transition is a self loop returning Ok; non-loop successors are explored to depth 4".into();
     rep.bounds.insert("depth".into(), json!(4));
-    rep.bounds.insert("unicode".into(), json!(if tier == Tier::Quick { "all White_Space, all scalars whose case mapping changes length or does not round trip, Σ – each in 14 contexts" } else { "every Unicode scalar value in 14 contexts on a quarter of the subjects, every 16th (+ all below U+3000 and all White_Space) on the rest" }));
+    rep.bounds.insert("unicode".into(), json!(if tier == Tier::Quick { "all White_Space, all scalars whose case mapping changes length or does not round trip, Σ – each in 16 contexts" } else { "every Unicode scalar value in 16 contexts on a quarter of the subjects, every 16th (+ all below U+3000 and all White_Space) on the rest" }));
     rep
 }
 
